@@ -57,22 +57,46 @@ def env():
     return e
 
 
-def target_dir(cfg):
-    return os.path.join(HARNESS, "target-" + cfg)
+# A "build" is a feature configuration of /repo plus the engine flavour:
+# "std", "alloc", "nostd" = the combinator/group binary; "std+co", "alloc+co" =
+# the concurrent-stream binary (profile `co`, feature `with-co`).
+def split(build_name):
+    cfg, _, co = build_name.partition("+")
+    return cfg, co == "co"
 
 
-def binary(cfg):
-    return os.path.join(target_dir(cfg), "debug", "fcv")
+def target_dir(b):
+    cfg, co = split(b)
+    return os.path.join(HARNESS, "target-" + cfg + ("-co" if co else ""))
 
 
-def build(cfg, quiet=True):
+def binary(b):
+    cfg, co = split(b)
+    return os.path.join(target_dir(b), "co" if co else "debug", "fcv")
+
+
+def builds_for(prop):
+    cfgs = PROP_CONFIGS[prop]
+    if prop in ("C13", "C14", "C15"):
+        return [c + "+co" for c in cfgs]
+    if prop in ("C02", "C03"):
+        return list(cfgs) + [c + "+co" for c in cfgs if c != "nostd"]
+    return list(cfgs)
+
+
+def build(b, quiet=True):
     """(Re)build the harness for one feature configuration of /repo.
     cargo's fingerprinting makes this a no-op when nothing changed."""
+    cfg, co = split(b)
     lock = os.path.join(HARNESS, "Cargo.lock")
     if not os.path.exists(lock):
         subprocess.run(["cp", os.path.join(REPO, "Cargo.lock"), lock], check=False)
+    flags = list(CONFIGS[cfg])
+    if co:
+        flags[-1] = flags[-1] + ",with-co"
+        flags = ["--profile", "co"] + flags
     cmd = ["cargo", "build", "--manifest-path", os.path.join(HARNESS, "Cargo.toml"),
-           "--target-dir", target_dir(cfg)] + CONFIGS[cfg]
+           "--target-dir", target_dir(b)] + flags
     p = subprocess.run(cmd, env=env(), stdout=subprocess.PIPE, stderr=subprocess.STDOUT, text=True)
     if p.returncode != 0:
         if not quiet:
@@ -111,7 +135,7 @@ def write_evidence(prop, tier, seed, frags, wall, violations, extra=None, level=
         "rule": (frags[0].get("rule", "") if frags else ""),
         "samples": [s for f in frags for s in f.get("samples", [])][:8],
         "per_config": {
-            f.get("config", "?"): {
+            f.get("config", "?") + ("/co" if f.get("engine") == "co" and prop in ("C02", "C03") else ""): {
                 "evaluations": f.get("evaluations", 0),
                 "distinct_nontrivial": f.get("distinct_nontrivial", 0),
                 "labels": f.get("labels", {}),
@@ -151,10 +175,10 @@ def run_engine(prop, tier, seed, extra_args=None):
     known_lines = []
     viol_lines = []
     infra = False
-    for cfg in PROP_CONFIGS[prop]:
+    for cfg in builds_for(prop):
         ok, log = build(cfg)
         if not ok:
-            if cfg == "std":
+            if cfg in ("std", "std+co"):
                 sys.stdout.write(log[-4000:])
                 print("INFRA: the harness does not build against /repo in the std configuration")
                 return 2
@@ -235,7 +259,8 @@ def run_engine(prop, tier, seed, extra_args=None):
     return 0
 
 
-def cfg_label(cfg):
+def cfg_label(b):
+    cfg, _ = split(b)
     return {"nostd": "no_std"}.get(cfg, cfg)
 
 
@@ -274,6 +299,8 @@ def replay(prop, path):
         return autotraits.replay(path)
     cfg = meta.get("config", "std")
     cfg = {"no_std": "nostd"}.get(cfg, cfg)
+    if meta.get("engine") == "co" or (meta.get("engine") == "regress" and prop in ("C13", "C14", "C15")):
+        cfg += "+co"
     ok, log = build(cfg)
     if not ok:
         sys.stdout.write(log[-4000:])
@@ -288,7 +315,7 @@ def replay(prop, path):
 
 def setup():
     rc = 0
-    for cfg in CONFIGS:
+    for cfg in ["std", "alloc", "nostd", "std+co", "alloc+co"]:
         t0 = time.time()
         ok, log = build(cfg, quiet=False)
         print("setup: harness[%s] %s in %.0fs" % (cfg, "built" if ok else "FAILED", time.time() - t0))
